@@ -31,7 +31,7 @@ CHECKS = {
    design="DESIGN.md §6 C07"),
  "C11": dict(
    category="proof",
-   text="Coq: reverse cumulative sum specification (entry i = sum_{j>i} alpha_j) so the stick-breaking chain uses Beta(alpha_i, tail_i); stick-breaking and gamma-normalisation outputs lie on the simplex (exact sum 1) for all inputs, lifted to every result of the Dirichlet model for both methods; method switch iff all alpha_i <= fl(0.1). Model tied pathwise to the crate on identical alpha bits and words; simplex predicate and sample() = sample_to_slice() on the real output.",
+   text="Coq: reverse cumulative sum specification (entry i = sum_{j>i} alpha_j) so the stick-breaking chain uses Beta(alpha_i, tail_i); stick-breaking and gamma-normalisation outputs lie on the simplex (exact sum 1) for all inputs, lifted to every result of the Dirichlet model for both methods; method switch iff all alpha_i <= fl(0.1); at the IEEE level (Flocq, binary32/binary64, Props/C11_fl.v) the libm-free stick-breaking loop turns Beta draws that are finite floats in [0,1] (C03_beta_final_in_unit) into exactly len+1 components each of which is a finite float in [0,1], for vectors of any length. Model tied pathwise to the crate on identical alpha bits and words; simplex predicate and sample() = sample_to_slice() on the real output.",
    note="Marginal/ratio laws reduce to C01's Beta/Gamma results by classical theorems not formalised (B-class).",
    technique="Coq proof (list recursion spec, simplex lemmas lifted over the model) + pathwise correspondence",
    design="DESIGN.md §6 C11"),
@@ -61,7 +61,7 @@ CHECKS = {
    design="DESIGN.md §6 C15"),
  "C03": dict(
    category="proof",
-   text="Coq theorems for the integer-exact part (weighted alias/tree indices always in range with non-zero weight, no panic); on the EXECUTABLE models of all seven discrete samplers (the decision trees run against the crate), for every word list and all valid parameters, every returned value is in the support and the panic sites (u64 underflow, 1 << 64, overflowing add, f64_to_u64 assertions, negative table index) are unreachable under the exact real semantics: StandardGeometric, Geometric, Zeta, Zipf (integer n), Poisson (Knuth, PD), Binomial (constant, Poisson limit, BINV, BTPE regions 1-4 and steps 5.1-5.3, flip), Hypergeometric (HIN, H2PE incl. its unguarded region 1, all four reflections; N < 2^51) (Props/C03_discrete.v); on the ideal real-number models of the continuous samplers, support theorems for Beta, Exp, Gamma, ChiSquared, FisherF, LogNormal, InverseGaussian, Weibull, Pareto, Frechet, Triangular, Pert (Props/C03_support.v); the IEEE-level part of the property is decided by the direct oracle on the real code: support predicate + catch_unwind over the single-word-adversarial lattice (about 200 boundary words x positions) x parameter points of envelope E incl. integer extremes, seeded random streams, and the exhaustive sweep of all 2^24 high-bit patterns of one word for every f32 sampler, in debug and release builds. Known findings (Frechet, Gumbel, Exp1 tail, Zipf) are matched by class.",
+   text="Coq theorems for the integer-exact part (weighted alias/tree indices always in range with non-zero weight, no panic); on the EXECUTABLE models of all seven discrete samplers (the decision trees run against the crate), for every word list and all valid parameters, every returned value is in the support and the panic sites (u64 underflow, 1 << 64, overflowing add, f64_to_u64 assertions, negative table index) are unreachable under the exact real semantics: StandardGeometric, Geometric, Zeta, Zipf (integer n), Poisson (Knuth, PD), Binomial (constant, Poisson limit, BINV, BTPE regions 1-4 and steps 5.1-5.3, flip), Hypergeometric (HIN, H2PE incl. its unguarded region 1, all four reflections; N < 2^51) (Props/C03_discrete.v); on the ideal real-number models of the continuous samplers, support theorems for Beta, Exp, Gamma, ChiSquared, FisherF, LogNormal, InverseGaussian, Weibull, Pareto, Frechet, Triangular, Pert (Props/C03_support.v); at the IEEE level (Flocq, binary32/binary64) the libm-free last step of Beta::sample - the `w == inf` guard and the reflection - returns a finite float in [0, 1] for every finite b > 0 and every w that is +inf or finite >= 0 (Props/C03_fl.v); the rest of the IEEE-level part of the property is decided by the direct oracle on the real code: support predicate + catch_unwind over the single-word-adversarial lattice (about 200 boundary words x positions) x parameter points of envelope E incl. integer extremes, seeded random streams, and the exhaustive sweep of all 2^24 high-bit patterns of one word for every f32 sampler, in debug and release builds. Known findings (Frechet, Gumbel, Exp1 tail, Zipf) are matched by class.",
    note="The theorem part does not cover float rounding at the extreme draws; that part is exploration (exhaustive for f32 single positions). Trusted: harness support predicates, catch_unwind, watchdog.",
    technique="Coq proof (integer/ideal parts) + exhaustive f32 draw enumeration and adversarial-word lattice on the real code",
    design="DESIGN.md §6 C03"),
